@@ -27,7 +27,7 @@ Configs == IF Quick THEN {x \in ConfigsAll : x.nx * x.ny * x.nz <= 4 /\ Len(x.sp
 \* meteorological formats: one configuration record per format/grid/steps/start
 MetConfigs ==
   { [fmt |-> f, spc |-> <<>>, nx |-> g[1], ny |-> g[2], nz |-> g[3], nt |-> nt,
-     year |-> st[1], jjj |-> st[2], hour |-> st[3], h24 |-> FALSE, hdr3 |-> TRUE, lstag |-> 0] :
+     year |-> st[1], jjj |-> st[2], hour |-> st[3], h24 |-> FALSE, hdr3 |-> TRUE, lstag |-> 0, nv |-> 0] :
       f \in MetFmts \ {"wind"}, g \in { <<1, 1, 1>>, <<2, 1, 2>>, <<2, 2, 1>>, <<3, 2, 2>>, <<1, 2, 3>> },
       nt \in 1..3, st \in { <<1999, 365, 22>>, <<2000, 59, 23>>, <<2011, 1, 0>> } }
   \cup
@@ -37,9 +37,26 @@ MetConfigs ==
   \* grids of at least 4 cells.  Long files (7 steps) on the smallest grid
   \* exercise the step-count rule.
   { [fmt |-> "wind", spc |-> <<>>, nx |-> g[1], ny |-> g[2], nz |-> g[3], nt |-> nt,
-     year |-> st[1], jjj |-> st[2], hour |-> st[3], h24 |-> FALSE, hdr3 |-> h3, lstag |-> 1] :
+     year |-> st[1], jjj |-> st[2], hour |-> st[3], h24 |-> FALSE, hdr3 |-> h3, lstag |-> 1, nv |-> 0] :
       g \in { <<2, 2, 1>>, <<3, 2, 2>>, <<4, 1, 3>> }, nt \in {1, 2, 3, 7}, h3 \in BOOLEAN,
       st \in { <<1999, 365, 22>>, <<2000, 59, 20>>, <<2011, 1, 0>> } }
+  \cup
+  \* cloud/rain: 5 variables (CAMx >= 4.3) or 3 (older); configurations whose
+  \* size is also a whole number of steps of the other variant are ambiguous by
+  \* format and left out (CloudAmbiguous)
+  { x \in { [fmt |-> "cloud_rain", spc |-> <<>>, nx |-> g[1], ny |-> g[2], nz |-> g[3], nt |-> nt,
+              year |-> st[1], jjj |-> st[2], hour |-> st[3], h24 |-> FALSE, hdr3 |-> TRUE, lstag |-> 0, nv |-> nv] :
+             g \in { <<2, 1, 1>>, <<2, 2, 1>>, <<3, 2, 2>> }, nt \in 1..3, nv \in {3, 5},
+             st \in { <<1999, 365, 22>>, <<2011, 1, 0>> } } : ~CloudAmbiguous(x) }
+  \cup
+  \* lateral boundary: grids of at least 2 x 2 (an edge has a first and a last cell)
+  { [fmt |-> "lateral_boundary", name |-> <<"B","O","U","N","D","A","R","Y">>, note |-> <<"v","e","r","i","f">>, itzon |-> 0,
+     spc |-> sp, nx |-> g[1], ny |-> g[2], nz |-> g[3], nt |-> nt, year |-> st[1], jjj |-> st[2], hour |-> st[3],
+     plon |-> -97, plat |-> 40, iutm |-> 0, xorg |-> -2736, yorg |-> -2088, delx |-> 36, dely |-> 36,
+     iproj |-> 2, istag |-> 0, tlat1 |-> 33, tlat2 |-> 45, h24 |-> h] :
+      sp \in (IF Quick THEN { << <<"O","3">> >>, << <<"N","O","2">>, <<"O","3">> >> } ELSE NameSets),
+      g \in { <<2, 2, 1>>, <<3, 2, 2>>, <<2, 3, 1>> }, nt \in 1..3, h \in (IF Quick THEN {FALSE} ELSE BOOLEAN),
+      st \in { <<1999, 365, 22>>, <<2000, 59, 23>>, <<2011, 182, 5>> } }
 \* large files (truncation of realistic sizes): compact emission, no cut enumeration
 BigConfigs ==
   { [fmt |-> "uamiv", name |-> <<"A","V","E","R","A","G","E">>, note |-> <<"b","i","g">>, itzon |-> 0,
@@ -72,6 +89,19 @@ WindLegacyCount == IOEnv.PNC_CAMX_DEV = "wind_legacy_count"
 WindOpen(cc, nn) == WindOpenF(cc, nn, WindLegacyCount)
 WindNeverFabricates == (c.fmt = "wind") => LET o == WindOpen(c, n) IN o.k = "Steps" => o.n <= CompleteSteps(c, n)
 WindFullFileReadsAll == (c.fmt = "wind" /\ n = FileBytes(c)) => WindOpen(c, n) = [k |-> "Steps", n |-> c.nt]
+
+\* ---- cloud/rain and lateral boundary
+CloudNeverFabricates == (c.fmt = "cloud_rain" /\ ~CloudAliased(c, n)) =>
+                           LET o == CloudOpenF(c, n) IN o.k = "Steps" => o.n <= CompleteSteps(c, n)
+CloudFullFileReadsAll == (c.fmt = "cloud_rain" /\ n = FileBytes(c)) => CloudOpenF(c, n) = [k |-> "Steps", n |-> c.nt, nv |-> c.nv]
+CloudSizes == (c.fmt = "cloud_rain" /\ n = 0) => (CloudHeaderBytes(c) = HeaderBytes(c) /\ CloudStepBytesNV(c, c.nv) = BlockBytes(c))
+\* the lateral boundary reader: whole blocks after the eight header records
+LatOpen(cc, nn) ==
+  IF nn <= HeaderBytes(cc) THEN [k |-> "Err", n |-> 0]
+  ELSE IF (nn - HeaderBytes(cc)) % BlockBytes(cc) # 0 THEN [k |-> "Err", n |-> 0]
+  ELSE [k |-> "Steps", n |-> (nn - HeaderBytes(cc)) \div BlockBytes(cc)]
+LatNeverFabricates == (c.fmt = "lateral_boundary") => LET o == LatOpen(c, n) IN o.k = "Steps" => o.n <= CompleteSteps(c, n)
+LatFullFileReadsAll == (c.fmt = "lateral_boundary" /\ n = FileBytes(c)) => LatOpen(c, n) = [k |-> "Steps", n |-> c.nt]
 
 NeverFabricates == (c.fmt = "uamiv" /\ ~Big) => LET o == UamivOpen(c, n) IN o.k = "Steps" => o.n <= CompleteSteps(c, n)
 FullFileReadsAll == (c.fmt = "uamiv" /\ ~Big /\ n = FileBytes(c)) => UamivOpen(c, n) = [k |-> "Steps", n |-> c.nt]
